@@ -21,8 +21,8 @@ Record gcase := {
 
 (* compact constructors for the generated case files (entity ids: 0 = trigger variable, 1 = unwatched entity,
    2 = an entity that never exists) *)
-Definition mk_occ (k : okind) (mono wall : Z) (trig last : env) (x y : option N) : occ :=
-  {| o_kind := k; o_mono := mono; o_wall := wall; o_trig := trig; o_last := last;
+Definition mk_occ (k : okind) (grp : N) (mono wall : Z) (trig last : env) (x y : option N) : occ :=
+  {| o_kind := k; o_grp := grp; o_mono := mono; o_wall := wall; o_trig := trig; o_last := last;
      o_cur := [(0%N, x); (1%N, y); (2%N, None)] |}.
 Definition mk_guards (sa : option sexpr) (ta : option (list sspec)) (hold : option Z) (ta_first : bool) : guards :=
   {| g_sa := sa; g_ta := ta; g_hold := hold; g_ta_first := ta_first |}.
@@ -59,15 +59,17 @@ Definition gcase_spec_ok (c : gcase) : bool :=
 Definition switch_off (cfg : deviations) (ks : list nat) : deviations :=
   {| d_time_active_per_arg := d_time_active_per_arg cfg && negb (existsb (Nat.eqb 15) ks);
      d_hold_early_update := d_hold_early_update cfg && negb (existsb (Nat.eqb 70) ks);
-     d_stale_active_vars := d_stale_active_vars cfg && negb (existsb (Nat.eqb 71) ks) |}.
+     d_stale_active_vars := d_stale_active_vars cfg && negb (existsb (Nat.eqb 71) ks);
+     d_hold_per_trigger := d_hold_per_trigger cfg && negb (existsb (Nat.eqb 72) ks) |}.
 Definition is_on (cfg : deviations) (k : nat) : bool :=
   (Nat.eqb k 15 && d_time_active_per_arg cfg) || (Nat.eqb k 70 && d_hold_early_update cfg)
-  || (Nat.eqb k 71 && d_stale_active_vars cfg).
+  || (Nat.eqb k 71 && d_stale_active_vars cfg) || (Nat.eqb k 72 && d_hold_per_trigger cfg).
 
 Definition gcase_attrib (cfg : deviations) (c : gcase) : list nat :=
   if negb (gcase_model_ok cfg c) then [] else
   let sp := gcase_spec c in
-  let cands := [[15]; [70]; [71]; [15; 70]; [15; 71]; [70; 71]; [15; 70; 71]]%nat in
+  let cands := [[15]; [70]; [71]; [72]; [15; 70]; [15; 71]; [70; 71]; [15; 72]; [70; 72]; [71; 72];
+                [15; 70; 71]; [15; 70; 72]; [15; 71; 72]; [70; 71; 72]; [15; 70; 71; 72]]%nat in
   match filter (fun ks => forallb (is_on cfg) ks && bools_eqb (gcase_model (switch_off cfg ks) c) sp) cands with
   | ks :: _ => ks
   | [] => []
